@@ -1436,8 +1436,9 @@ def value_categories(ctx, rid, files):
     """A8 over every function of the files a property is anchored in: no variable is used again after it was passed on
     with std::move / an rvalue std::forward, and nothing is moved out of an object the function only refers to (an
     lvalue-reference parameter in this instantiation, a local reference into storage owned elsewhere)"""
-    from .typestate import moves_from_lvalue_ref, uses_after_move
-    ctx.rule(rid, "no use after std::move / rvalue std::forward; no std::move out of an object held by lvalue reference", floor=10)
+    from .typestate import moves_from_lvalue_ref, uses_after_move, refs_into_dead_temporaries
+    ctx.rule(rid, "no use after std::move / rvalue std::forward; no std::move out of an object held by lvalue reference; no "
+             "reference into the payload that outlives the temporary handle it was reached through", floor=10)
     fxb, _ = ctx.fx
     got = {}
     for f in fxb.functions():
@@ -1455,6 +1456,11 @@ def value_categories(ctx, rid, files):
         ctx.ob(rid, not uam, f.loc(uam[0][0]) if uam else f.where, "%s uses nothing after having moved / forwarded it away" % f.name,
                "" if not uam else "%s is passed on as an rvalue here and used again at %s: a callable or value that gives its "
                "state away on the first use is empty on the second" % (uam[0][1], f.loc(uam[0][2])), fn=f.label, inst=f.qname)
+        dead = refs_into_dead_temporaries(f)
+        ctx.ob(rid, not dead, f.loc(dead[0][0]) if dead else f.where, "%s keeps no reference into the payload beyond the handle "
+               "it was reached through" % f.name, "" if not dead else "'%s' is bound to the payload through a temporary handle that is "
+               "destroyed at the end of this declaration; its use at %s runs without the lock / reader registration"
+               % (dead[0][1], f.loc(dead[0][2])), fn=f.label, inst=f.qname)
         bad = moves_from_lvalue_ref(f)
         ctx.ob(rid, not bad, f.loc(bad[0][0]) if bad else f.where, "%s moves from nothing it holds by lvalue reference" % f.name,
                "" if not bad else "std::move(%s): the object belongs to the caller or to a container (it is an lvalue reference "
